@@ -90,15 +90,17 @@ def parse (l : LogInfo) (raw : Bytes) : Option (Cp.Checkpoint × Note.Note) :=
 
 def toCore (c : Cp.Checkpoint) : Core.CP Bytes := ⟨c.size, c.hash⟩
 
-/-- sign, `Set`, count: the common tail of the three accepting branches -/
-def signAndSet (cfg : Cfg) (env : Env) (n : Note.Note) (ctr : Ctr) : Out :=
+/-- sign (`signChkpt`: `note.Sign`, then the cosigned note must parse again under the log's key),
+    `Set`, count: the common tail of the three accepting branches -/
+def signAndSet (cfg : Cfg) (env : Env) (l : LogInfo) (n : Note.Note) (ctr : Ctr) : Out :=
   match cfg.signers n.text with
   | none => { ret := none, err := .signFailed, opened := true, ctr := ctr }
   | some outs =>
     match Note.sign n outs with
     | none => { ret := none, err := .signFailed, opened := true, ctr := ctr }
     | some signed =>
-      if env.setErr then { ret := none, err := .storage, set := some signed, opened := true, ctr := ctr }
+      if (parse l signed).isNone then { ret := none, err := .signFailed, opened := true, ctr := ctr }
+      else if env.setErr then { ret := none, err := .storage, set := some signed, opened := true, ctr := ctr }
       else { ret := some signed, err := .none, set := some signed, opened := true,
              ctr := { ctr with success := ctr.success + 1 } }
 
@@ -114,7 +116,7 @@ def update (cfg : Cfg) (env : Env) (logID : Bytes) (old : Nat) (nextRaw : Bytes)
       if env.writeOpsErr then { ret := none, err := .storage, ctr := ctr }
       else match env.prev with
         | .readErr => { ret := none, err := .storage, opened := true, ctr := ctr }
-        | .notFound => signAndSet cfg env nextNote ctr
+        | .notFound => signAndSet cfg env l nextNote ctr
         | .found prevRaw =>
           match parse l prevRaw with
           | none => { ret := none, err := .storedUnparseable, opened := true, ctr := ctr }
@@ -127,7 +129,7 @@ def update (cfg : Cfg) (env : Env) (logID : Bytes) (old : Nat) (nextRaw : Bytes)
                                  ctr := { ctr with inconsistent := 1 } }
             | .invalidProof => { ret := some prevRaw, err := .invalidProof, opened := true,
                                  ctr := { ctr with invalidConsistency := 1 } }
-            | .accepted => signAndSet cfg env nextNote ctr
+            | .accepted => signAndSet cfg env l nextNote ctr
 
 /-- storage calls one `Update` makes, in order: W = WriteOps, G = GetLatest, S = Set, C = Close -/
 inductive Call | W | G | S | C
